@@ -7,6 +7,7 @@ DRIVER = 'harness/trigger_drv.cpp'
 EXTRACT = 'Extract/TriggerExtract.v'
 ML = 'trigger_model'
 SANITIZE = False
+ENUM = True
 
 ACTIVATE, TRIGGER, ISTRIG, WAIT, WAITFOR, WAITACT, WAITFORACT, RESET, ISACTIVE = range(9)
 OPNAME = ['activate', 'trigger', 'isTriggered', 'wait', 'wait_for', 'waitActivation', 'wait_forActivation', 'reset',
